@@ -4,9 +4,9 @@ from vlib.core import Case, hx
 ID = "C04"
 N = 0xFFFFFFFFFFFFFFFFFFFFFFFFFFFFFFFEBAAEDCE6AF48A03BBFD25E8CD0364141
 RULE = ("op acct.new <bytes> -> secret, 65-byte key, EIP-55 text: scalars 1,2,n-2,n-1 and random; 0,n,n+1,2^256-1 (must be rejected); "
-        "every length 0..64 (zero-padded small values, random, all-ff); non-trivial = distinct input; "
+        "keys whose public key has every possible first byte of X and of Y (found by walking k·G); every length 0..64 (zero-padded small values, random, all-ff); non-trivial = distinct input; "
         "judge = secret·G by independent secp256k1, Keccak-256, EIP-55 written from the EIP")
-EXHAUSTIVE_SWEEPS = {"quick": ["all lengths 0..64"], "thorough": ["all lengths 0..64"]}
+EXHAUSTIVE_SWEEPS = {"quick": ["all lengths 0..64", "first byte of X: 0..255", "first byte of Y: 0..255"], "thorough": ["all lengths 0..64", "first byte of X: 0..255", "first byte of Y: 0..255"]}
 
 
 def gen(rng, tier):
@@ -16,6 +16,24 @@ def gen(rng, tier):
     for _ in range(1500 if tier == "thorough" else 300):
         v = rng.choice([rng.randrange(1, N), rng.randrange(1, 2 ** 64), N - rng.randrange(1, 2 ** 32), rng.randrange(N, 2 ** 256)])
         cases.append(Case("acct.new %064x" % v, tags=("random",)))
+    # keys chosen by what their public key looks like: every value of the first byte of X and of Y (a leading 0x04 looks like
+    # the SEC1 tag, a leading 0x00 is where a stripped / re-padded coordinate shows), and the smallest X / Y met on the way
+    from vlib import secp
+    need_x, need_y = set(range(256)), set(range(256))
+    best = {}
+    for k, pt in secp.walk(rng.randrange(1, N - 20000), 6000 if tier == "quick" else 20000):
+        bx, by = pt[0] >> 248, pt[1] >> 248
+        hit = []
+        if bx in need_x:
+            need_x.discard(bx)
+            hit.append("X0:%02x" % bx if bx in (0, 4, 2, 3, 0xff) else "X0:any")
+        if by in need_y:
+            need_y.discard(by)
+            hit.append("Y0:%02x" % by if by in (0, 4, 2, 3, 0xff) else "Y0:any")
+        if tier == "thorough" and bx in (0, 4):
+            hit.append("X0:%02x" % bx)
+        for h in hit[:1]:
+            cases.append(Case("acct.new %064x" % k, tags=("pubkey-shape", h)))
     for L in range(0, 65):
         for b in (bytes(L), bytes([0] * max(0, L - 1) + [1])[:L], bytes(rng.getrandbits(8) for _ in range(L)), b"\xff" * L,
                   (b"\x00" * L + bytes.fromhex("%064x" % rng.randrange(1, N)))[-L:] if L else b""):
